@@ -189,6 +189,10 @@ func c15GenProject(r *Rand) *c15Project {
 		// a file that is not YAML at all: one parse error, goes through the same filter
 		add(".github/workflows/broken.yml", "on: push\njobs:\n  a: [\n")
 	}
+	if r.Chance(2, 5) {
+		// names with characters that are special in globs, YAML or shells
+		add(".github/workflows/"+r.Pick(c15OddNames), c15Workflow(r, false))
+	}
 	// the order in which `actionlint` (no arguments) lists them: sorted full paths
 	sort.Slice(p.Files, func(i, j int) bool { return p.Files[i].Rel < p.Files[j].Rel })
 	switch r.Intn(4) {
@@ -498,6 +502,28 @@ func c15GenFilter(c *Case, p *c15Project, kind string, msgs []string) *c15Filter
 	case "both":
 		nCLI = r.Range(1, 2)
 		nEnt = r.Range(1, 3)
+	case "glob":
+		// one or two entries, each built around one construct of the glob syntax (rotating over the
+		// constructs with the case index so that every one is exercised), mostly with an
+		// ignore-everything pattern so that the glob alone decides
+		for i := 0; i < 2; i++ {
+			g := c15GenGlobConstruct(r, p, (c.Idx*2+i)%14)
+			if !c15ValidGlob(g) {
+				g = c15GenGlobConstruct(r, p, 7)
+			}
+			dup := false
+			for _, e := range f.Entries {
+				dup = dup || e.Glob == g
+			}
+			if dup || !c15ValidGlob(g) {
+				continue
+			}
+			pat := r.Pick([]string{".", "", "^"})
+			if r.Chance(2, 5) {
+				pat = c15GenPat(c, msgs)
+			}
+			f.Entries = append(f.Entries, c15Entry{Glob: g, Pats: []string{pat}})
+		}
 	case "all":
 		// everything is filtered, by one mechanism or the other
 		if r.Bool() {
@@ -521,6 +547,9 @@ func c15GenFilter(c *Case, p *c15Project, kind string, msgs []string) *c15Filter
 	}
 	for i := 0; i < nEnt; i++ {
 		g := c15GenGlob(r, p)
+		if r.Bool() {
+			g = c15GenGlobConstruct(r, p, -1)
+		}
 		if seen[g] {
 			continue // a duplicate mapping key would be a broken configuration file
 		}
